@@ -60,8 +60,12 @@ def lemma_vcs() -> list:
     v = z3.Function("lem_v", I, R_)
     FS = z3.Function("lem_FS", I, R_)
     C = z3.Function("lem_C", I, I)
-    x = z3.Real("lem_x")
-    fax = [z3.ForAll([x], z3.Implies(z3.And(z3.IsInt(x), x <= 2 ** 53, x >= -(2 ** 53)), fl(x) == x)),
+    kq = z3.Int("lem_k")
+
+    def fl_exact(k):        # rounding is exact on the integers of magnitude <= 2^53 (every such real is ToReal(k) for an Int k)
+        return z3.Implies(z3.And(k <= 2 ** 53, k >= -(2 ** 53)), fl(z3.ToReal(k)) == z3.ToReal(k))
+
+    fax = [z3.ForAll([kq], fl_exact(kq)),
            FS(0) == 0, C(0) == 0,
            z3.ForAll([j], z3.Implies(j >= 0, FS(j + 1) == fl(FS(j) + v(j))), patterns=[FS(j + 1)]),
            z3.ForAll([j], z3.Implies(j >= 0, C(j + 1) == C(j) + z3.If(v(j) == 1, 1, 0)), patterns=[C(j + 1)])]
@@ -78,7 +82,11 @@ def lemma_vcs() -> list:
 
     out = []
     out.append(VC("lemma:float_sum_of_zero_one_is_exact_count#base", to_smt2(fax, F(z3.IntVal(0))), kind="lemma", target="pyvc/lemmas.py"))
-    out.append(VC("lemma:float_sum_of_zero_one_is_exact_count#step", to_smt2(fax + [n >= 0, F(n)], F(n + 1)), kind="lemma", target="pyvc/lemmas.py"))
+    # step: the axioms enter through their GROUND INSTANCES at n (a weaker hypothesis, so the VC proved is the stronger
+    # one); with the quantified axioms the query is decided in 0.02 s or not at all depending on the solver's seed
+    arg = FS(n) + v(n)
+    fax_n = [fl_exact(C(n)), fl_exact(C(n) + 1), FS(n + 1) == fl(arg), C(n + 1) == C(n) + z3.If(v(n) == 1, 1, 0)]
+    out.append(VC("lemma:float_sum_of_zero_one_is_exact_count#step", to_smt2(fax_n + [n >= 0, F(n)], F(n + 1)), kind="lemma", target="pyvc/lemmas.py"))
     for name, prop in (("sum_le_and_eq_iff_pointwise", P), ("sum_ge_count", Q), ("sum_nonneg", R), ("sum_of_zero_one", U)):
         out.append(VC(f"lemma:{name}#base", to_smt2(ax, prop(z3.IntVal(0))), kind="lemma", target="pyvc/lemmas.py"))
         out.append(VC(f"lemma:{name}#step", to_smt2(ax + [n >= 0, prop(n)], prop(n + 1)), kind="lemma", target="pyvc/lemmas.py"))
